@@ -1047,8 +1047,11 @@ class WalletTransaction(Transaction):
                        DbTransactionOutput.spent.is_(True), DbTransaction.wallet_id == self.hdwallet.wallet_id).all()
             for u in prev_utxos:
                 # Check if output is spent in another transaction
-                if session.query(DbTransactionInput).filter(DbTransactionInput.transaction_id ==
-                                                            inp.transaction_id).first():
+                if not session.query(DbTransactionInput).join(DbTransaction).\
+                        filter(DbTransaction.wallet_id == self.hdwallet.wallet_id,
+                               DbTransactionInput.prev_txid == inp.prev_txid,
+                               DbTransactionInput.output_n == inp.output_n,
+                               DbTransactionInput.transaction_id != tx.id).first():
                     u.spent = False
         session.query(DbTransactionInput).filter_by(transaction_id=tx.id).delete()
         qr = session.query(DbKey).filter_by(latest_txid=txid)
